@@ -6,4 +6,6 @@ INVARIANT ReadEqualsWritten
 INVARIANT TokensReadEqualWritten
 INVARIANT FieldTextsReadEqualWritten
 INVARIANT FieldsReadEqualWritten
+INVARIANT RelativeReadsEqual
+INVARIANT TooLongRefused
 CHECK_DEADLOCK FALSE
